@@ -87,3 +87,34 @@ pub assume_specification [HeaderValue::as_bytes] (v: &HeaderValue) -> (r: &[u8])
 pub assume_specification [Encoding::for_label] (l: &[u8]) -> (r: Option<&'static Encoding>) ensures r == label_enc(l@);
 /// `charsets::WINDOWS_1252` (external static)
 #[verifier::external_body] pub fn vp_win1252() -> (r: Charset) ensures r == win1252() { encoding_rs::WINDOWS_1252 }
+
+// ---- convenience readers: `io::copy` / `read_to_end` drain a reader by calling `read` until Ok(0) or Err (std behaviour,
+// assumed).  For the Plain arm the consequence below follows from `read`'s verified contract by `session_complete`.
+/// `io::copy(&mut self.inner, &mut writer)`
+#[verifier::external_body]
+pub fn vp_io_copy_body<W: Write>(r: &mut CompressedReader, w: &mut W) -> (res: io::Result<u64>)
+    requires old(r).inv(),
+    ensures
+        *old(r) matches CompressedReader::Plain(b0) ==> ({
+            &&& (res matches Ok(n) ==> b0.owed().1 && n == b0.owed().0.len() && (*final(w)).sent() == (*old(w)).sent() + b0.owed().0)
+            &&& (!b0.owed().1 ==> res is Err)
+            &&& is_prefix((*final(w)).sent().skip((*old(w)).sent().len() as int), b0.owed().0)
+        }),
+{ io::copy(r, w) }
+/// `self.inner.read_to_end(&mut buf)`
+#[verifier::external_body]
+pub fn vp_read_to_end_body(r: &mut CompressedReader, buf: &mut Vec<u8>) -> (res: io::Result<usize>)
+    requires old(r).inv(),
+    ensures
+        *old(r) matches CompressedReader::Plain(b0) ==> ({
+            &&& (res is Ok ==> b0.owed().1 && final(buf)@ == old(buf)@ + b0.owed().0)
+            &&& (!b0.owed().1 ==> res is Err)
+        }),
+{ r.read_to_end(buf) }
+pub uninterp spec fn utf8_lossy_string(b: Seq<u8>) -> Seq<char>;
+/// `String::from_utf8(buf).unwrap_or_else(|err| String::from_utf8_lossy(err.as_bytes()).into_owned())`: total, never fails
+#[verifier::external_body]
+pub fn vp_utf8_or_lossy(buf: Vec<u8>) -> (r: String) ensures r@ == utf8_lossy_string(buf@)
+{ String::from_utf8(buf).unwrap_or_else(|err| String::from_utf8_lossy(err.as_bytes()).into_owned()) }
+/// `impl Write for Vec<u8>` appends: the sink view of a Vec is its contents
+#[verifier::external_body] pub broadcast proof fn axiom_vec_sent(v: Vec<u8>) ensures #[trigger] v.sent() == v@ { }
